@@ -206,6 +206,16 @@ func checkLowerMap(c *Ctx, fn *ssa.Function) {
 		}
 		n++
 		key := fmt.Sprintf("maybeLower:byte#%d", n)
+		if ia, ok := src.(*ssa.UnOp).X.(*ssa.IndexAddr); ok {
+			okCov, why := ia.X == ssa.Value(fn.Params[0]), "the bytes copied are not elements of the whole name parameter (a prefix or suffix is dropped)"
+			if okCov {
+				okCov, why = unitStrideOver(ia.Index, fn.Params[0])
+			}
+			if why == "" {
+				why = "every byte of the name is copied"
+			}
+			c.Check(okCov, "LOWER", key+":coverage", in.Pos(), why)
+		}
 		isSym := func(x ssa.Value) bool { return x == src }
 		reach := bs.reachUnderSym(fn, isSym, byteDomain())
 		var bad []int64
